@@ -16,6 +16,7 @@ from mc.common import reset_frame_state, quiet
 
 ID = 'C09'
 LEVEL = 'exploration'
+PRELOAD = ['frame.geometry.geometry', 'frame.netlist.netlist', 'frame.die.die', 'frame.allocation.allocation', 'ruamel.yaml', 'mc.common', 'tools.legalfloor.legalfloor']
 RULE = ("netlists: 1-3 modules from 21 shapes (soft/hard/fixed x {single rectangle, trunk+N, trunk+N+N, trunk+E+W, trunk+S(+W), two siblings on each side listed against their order, a branch centred on the trunk axis}, two of them with integer "
         "YAML coordinates) placed in distinct slots of the die, max_ratio in {2,3}; configurations per model: input; each movable module translated to each free slot; "
         "soft modules grown 10%; each branch slid 0.2 along its side; and from each legal configuration every perturbation of the menu {cross each die border by 0.5, "
